@@ -11,8 +11,11 @@ Local Open Scope dec_scope.
    the claims are recorded, 2 kill after they are recorded / during the sleep that follows) *)
 Definition sstep := (Z * Z * Z)%type.
 
+(* the events of a block that the relayer can turn into a claim: the scenario marks an event whose fields
+   txs.EthereumEventToEthBridgeClaim refuses (recipient with a wrong checksum, "eth" with a token address) by a nonce
+   whose last two digits are 50 or more; the loop logs such an event and goes on with the next one *)
 Fixpoint assoc_events (evs : list (Z * list Z)) (b : Z) : list Z :=
-  match evs with [] => [] | (b', l) :: r => if b' =? b then l else assoc_events r b end.
+  match evs with [] => [] | (b', l) :: r => if b' =? b then filter (fun n => n mod 100 <? 50) l else assoc_events r b end.
 
 (* observation tokens: [1; from; to; code] a log query (code 0 ok, 1 failed, 2 killed), [2; nonce] a submitted claim,
    [3; cursor] the persisted cursor *)
